@@ -22,7 +22,7 @@ from .judge import judge
 NONE = -9999
 FORMATS = [(1, 1), (2, 1), (2, 2), (4, 1), (1, 3), (4, 2), (4, 3)]
 KIND2INPUT = {"buffer": "source", "raw": "raw_lazy", "wav": "wav_lazy", "stdin": "stdin", "stdin_pipe": "stdin_pipe"}
-TIERS = {"quick": dict(MaxN=4), "thorough": dict(MaxN=7)}
+TIERS = {"quick": dict(MaxN=4), "thorough": dict(MaxN=10)}
 
 
 def make_source(kind, n, sr, sw, ch, tmpdir, tag="s", pipe=False):
@@ -274,8 +274,8 @@ def check(prop, tier, replay=None):
     V.sample({"leg": "R", "transition": ex})
 
     t0 = time.time()
-    traces = [gen_trace(rng, tier, tmpdir) for _ in range(400 if tier == "quick" else 4000)]
-    traces += [gen_setter_trace(rng, tier) for _ in range(60 if tier == "quick" else 400)]
+    traces = [gen_trace(rng, tier, tmpdir) for _ in range(400 if tier == "quick" else 30000)]
+    traces += [gen_setter_trace(rng, tier) for _ in range(60 if tier == "quick" else 2000)]
     tcfg = ('CONSTANTS MaxN = 0 RateSet = {} KindSet = {}\nSPECIFICATION TSpec\nCONSTRAINT Mon\nPOSTCONDITION Post\nCHECK_DEADLOCK FALSE\n')
     rows, st = judge("SourceTrace", tcfg, traces, wd, "st", strip=lambda x: {k: x[k] for k in ("kind", "n", "sr", "ev")},
                      weight=lambda x: len(x["ev"]) + sum(len(e["ids"]) for e in x["ev"]) // 10)
